@@ -280,6 +280,31 @@ theorem setUnits_goodC (i : Info) (f : Frame) (m : List (Str × Str)) (hg : Good
         intro f0 hf0 he hs
         exact hk f0 (hc f0 hf0 he hs)
 
+/-- editing a display format does not touch any unit -/
+theorem setColFmt_goodC (i : Info) (f : Frame) (n : Str) (fm : Option Str) (hg : GoodC i) :
+    GoodC (setColFmt i f n fm).1 := by
+  unfold setColFmt
+  have hc := checkDataframe_goodC i f hg
+  cases h : checkDataframe i f with
+  | mk i1 e =>
+    rw [h] at hc
+    cases e with
+    | some e => simpa using hc
+    | none =>
+      simp only
+      cases hget : get i1.reg n with
+      | none => simpa using hc
+      | some m =>
+        intro f0 hf0 he hs c hcm m' hm'
+        simp only at hf0 hs hm'
+        rw [get_set] at hm'
+        by_cases hn : n = c.name
+        · simp only [hn, if_true] at hm'
+          cases hm'
+          exact hc f0 hf0 he hs c hcm m (by rw [← hn]; exact hget)
+        · simp only [hn, if_false] at hm'
+          exact hc f0 hf0 he hs c hcm m' hm'
+
 /-- which operations are inside the guarantee: everything, except unit-setter calls that put or remove a
     special unit (the relabelling is judged against the register the setter sees, i.e. after its own
     consultation) -/
@@ -358,6 +383,7 @@ theorem step_goodC (t : Tbl) (op : Op) (hg : GoodC t.info) (ha : Allowed t op) :
     rw [this] at hf0; cases hf0
   | setUnits m => simpa [step] using setUnits_goodC t.info t.frame m hg ha
   | setAllUnits us => simpa [step, setAllUnits] using setUnits_goodC t.info t.frame _ hg ha
+  | setFmt n fm => simpa [step] using setColFmt_goodC t.info t.frame n fm hg
   | setColUnit n u =>
     by_cases hc : n ∈ t.frame.names
     · by_cases hd : dupLabel t.frame n = true
